@@ -27,6 +27,10 @@ func checkC04(r *Run) {
 	}
 	ruleA9Event(r, p, false)
 	ruleNilOrder(r, p, []string{""})
+	// a filtered Fatal() closes the writer before exiting: Close of a diode must return, also when
+	// nothing was ever written (the consumer is started by the constructor, Close waits only for it)
+	ruleSingleConsumer(r, p)
+	ruleCloseOrder(r, p, "CLOSE")
 	ruleGate(r, p, true)
 	ruleNewEventNil(r, p)
 	ruleWithLevel(r, p)
